@@ -94,6 +94,9 @@ def gen_tree(rng, C, depth=0, pool=None):
                         and w.shape == m.weight.shape:
                     m.weight = w
                     break
+        if kind in ('Linear', 'Conv2d', 'MyLinear', 'Conv2dSub') and rng.random() < 0.12:
+            # an optional sub-module slot that is empty: the layer is still a leaf (children() yields nothing)
+            m.register_module(rng.choice(['aux', 'bn', 'act']), None)
         pool.append(m)
         return m
     n = rng.randrange(2, 6) if depth == 0 else rng.randrange(0, 4)
